@@ -9,7 +9,7 @@ Local Open Scope string_scope.
    4 unary and 2 boolean operators, comparison chains (all 10 operators, `is not` / `not in` as two tokens), conditional
    expressions, lambdas with EVERY parameter list (positional-only `/`, positional, `*args` or a bare `*`,
    keyword-only, `**kwargs`, defaults of any core expression), assignment expressions, attribute / call / subscript trailers (plain, tuple and
-   slice indices with any missing parts), calls with positional,
+   slice indices with any missing parts, index tuples with slices among their items: a[1:2, k, ::3]), calls with positional,
    starred, keyword and double-starred arguments in any number, list / tuple / set / dict displays with starred and
    double-starred elements, list / set / dict comprehensions with any number of `for` clauses and conditions,
    generator expressions in the two positions where they are commonly written (the bare only argument of a call,
@@ -22,7 +22,7 @@ Local Open Scope string_scope.
 
    C03_roundtrip_core_partial: for EVERY tree of the core, of any depth and shape, the parser reads back exactly the tree
    from the printed tokens, consuming all of them.  PARTIAL with respect to the property: generator
-   expressions as operands of other nodes, index tuples that contain slices, f-strings and yield / await are outside the core (decided by
+   expressions as operands of other nodes, f-strings and yield / await are outside the core (decided by
    CPython's parser on all compositions, see the evidence); literals are opaque tokens (C04). *)
 Theorem C03_roundtrip_core_partial : forall e, core_top e = true ->
   exists f0, forall f, f0 <= f -> pc f (MExpr slot_top) (pp slot_top e) = Some (e, []).
